@@ -40,7 +40,7 @@ MANIFEST = {
             "names for ALL attribute values; every policy string pushed through q() must decode back to itself for all code points.",
     "note": "Ops x value kinds x value_type enumerated; attribute values and policy-string characters symbolic. Finite tables are enumerated and labelled as such.",
     "technique": "symbolic execution of the real translator and of its output through the real parser/evaluator/c7nlib + z3; counterexample replay",
-    "design_ref": "DESIGN.md §7 C19",
+    "design_ref": "DESIGN.md §7 C19, §10.2 (duration literals on the time model)",
 }
 
 
